@@ -104,3 +104,7 @@ def run(ctx: Ctx) -> None:
     from .c01 import riscv_map
     from .c02 import split_rule
     split_rule(ctx, riscv_map(ctx), "R07.split", interlock_only=True)
+    from ..stagespec import datapath_rule
+    datapath_rule(ctx, "R07.mux")
+    from ..pipelinespec import step_rule
+    step_rule(ctx, "R07.step")
